@@ -1237,7 +1237,19 @@ impl World {
         let other = |t: u32| if self.tag2 == 0 { None } else if t == self.tag { Some(self.tag2) } else { Some(self.tag) };
         let unreadable = |t: u32, id: &str, ext: &str| {
             let src = if t == self.tag { Some(&self.src) } else { self.src2.as_ref() };
-            src.map_or(false, |s| s.faults().unreadable_files.contains_key(&(id.to_string(), ext.to_string())))
+            src.map_or(false, |s| {
+                let mut f = s.faults();
+                if f.unreadable_files.contains_key(&(id.to_string(), ext.to_string())) {
+                    return true;
+                }
+                if let Some((e, n, seen)) = &mut f.model_unreadable_nth {
+                    if e.0 == id && e.1 == ext {
+                        *seen += 1;
+                        return *seen - 1 == *n;
+                    }
+                }
+                false
+            })
         };
         let ctx = ModelCtx { trees: &trees, cached, other: &other, unreadable_files: &unreadable, depth: std::cell::Cell::new(0) };
         ctx.fresh(tag, kind, id)
